@@ -8,8 +8,10 @@ SPEC = {
     "thorough": {"shards": 16, "budget_s": 900, "timeout_s": 1500},
     "rule": "case = (grammar, string, start nonterminal); strings = all words over the grammar's terminal alphabet up to "
             "length 4-6 (capped), yields of random derivations and single-edit mutants; grammars = feature corpus, random grammars and 'nullable forward chain' grammars (nonterminals nullable only through later rules, used side by side); distinct = distinct "
-            "(grammar, string, nonterminal, entry point) triples judged against the independent span-chart recognizer",
-    "minimum": {"quick": {"accepted": 5000, "rejected": 5000, "grammars_nullable": 10, "grammars_ambiguous": 5, "grammars_nullable_forward_chain": 8},
+            "(grammar, string, nonterminal, entry point) triples judged against the independent span-chart recognizer; plus an "
+            "in-situ slice: every EarleyParser.parse call ISLa makes itself while solving documented families (grammar, start "
+            "symbol and text as the solver passed them) judged by the same recognizer",
+    "minimum": {"quick": {"accepted": 5000, "rejected": 5000, "grammars_nullable": 10, "grammars_ambiguous": 5, "grammars_nullable_forward_chain": 8, "insitu_accepted": 10},
                 "thorough": {"accepted": 20000, "rejected": 20000, "grammars_nullable": 30, "grammars_ambiguous": 30}},
     "assumptions": ["R1 span-chart recognizer (islamon/ref/grammar.py), cross-checked against brute-force derivation "
                     "enumeration in setup.sh", "<start> has exactly one alternative (documented restriction)",
@@ -89,6 +91,65 @@ def strings_for(ctx, g, m, maxlen, cap):
     return out
 
 
+def insitu_slice(ctx, rng):
+    """parser calls made by ISLa itself while solving (model values re-parsed under a nonterminal, the regex-vs-grammar
+    assertion, match-expression grammars): whatever grammar and text the solver hands to EarleyParser.parse is judged by R1"""
+    from islamon import insitu
+    fam, gname, g0, log = insitu.solver_workload(ctx, rng, ["parse"], nsolve=3, random_share=0.3)
+    models, seen = {}, set()
+    for rec in log["parse"][:600]:
+        if not ctx.running():
+            break
+        g, start, s = rec["grammar"], rec["start"], rec["text"]
+        if not rec["advanced"] or not isinstance(s, str) or len(s) > 40:
+            ctx.count("insitu_parse_not_judged")
+            continue
+        gk = json.dumps(g, sort_keys=True, default=str)
+        sig = (gk, start, s)
+        if sig in seen:
+            continue
+        seen.add(sig)
+        if gk not in models:
+            try:
+                m = G(g)
+                ok = start in m.cg and len(g.get(start, [])) == 1 and m.well_formed() and not m.derives_self()
+            except Exception:
+                m, ok = None, False
+            models[gk] = m if ok else None
+        m = models[gk]
+        if m is None:
+            ctx.count("insitu_parse_grammar_outside_domain")
+            continue
+        ctx.ev()
+        st, exp = ctx.guarded(m.member, s, start, timeout=20)
+        if st != "ok":
+            ctx.inconclusive("R1-watchdog")
+            continue
+        wit = {"grammar": g, "s": s, "nt": start, "via": "in-situ", "family": fam}
+        if rec["exc"] is not None:
+            if exp:
+                ctx.violation(None, f"in-situ ({fam}): SyntaxError on a member of L({start})", wit)
+            else:
+                ctx.count("insitu_rejected")
+                ctx.held(("rej", "in-situ", gname, start, len(s)))
+            continue
+        if not exp:
+            ctx.violation(None, f"in-situ ({fam}): accepts a non-member of L({start})", wit)
+            continue
+        bad = None
+        for t in rec["trees"]:
+            bad = m.valid_tree(t, start, allow_open=False)
+            if bad is None and tstr(t) != s:
+                bad = f"yield {tstr(t)!r} != input"
+            if bad:
+                break
+        if bad:
+            ctx.violation(None, f"in-situ ({fam}): unfaithful tree: {bad}", {**wit, "tree": to_list(t)})
+            continue
+        ctx.count("insitu_accepted")
+        ctx.held(("acc", "in-situ", gname, start, len(s)), sample={"family": fam, "start": start, "s": s, "via": "in-situ"})
+
+
 def run(ctx):
     from isla.parser import EarleyParser
     from isla.solver import ISLaSolver
@@ -96,6 +157,9 @@ def run(ctx):
     corpus = list(GG.FEATURE.items())
     gi = 0
     while ctx.running():
+        if gi >= len(corpus) and rng.random() < 0.12:
+            insitu_slice(ctx, rng)
+            continue
         if gi < len(corpus) and (gi % ctx.nshards) == ctx.shard % max(1, min(ctx.nshards, len(corpus))):
             name, g = corpus[gi]
         elif rng.random() < 0.25:
